@@ -86,34 +86,55 @@ impl BoxError {
     pub fn downcast_ref<T>(&self) -> (r: Option<&T>) ensures (r is Some) == is_error_type::<T>(self) { unimplemented!() }
 }
 pub mod http_body_util { pub struct LengthLimitError; }
-/// hyper::body::Body — `content()` is the concatenation of all data frames the body will yield, however chunked
-pub trait Body: Sized { spec fn content(&self) -> Seq<u8>; }
+/// hyper::body::Body (+ http_body_util::BodyExt::collect).
+///   content() — the concatenation of all data frames the body will yield, however chunked;
+///   fails()   — reading it to the end runs into a transport error.
+pub trait Body: Sized {
+    type Error;
+    spec fn content(&self) -> Seq<u8>;
+    spec fn fails(&self) -> bool;
+    /// BodyExt::collect WITHOUT any limit: the whole body, or the transport error
+    fn collect(self) -> (r: Result<Collected, Self::Error>)
+        ensures
+            r matches Ok(c) ==> collected_view(&c) == self.content() && !self.fails(),
+            r is Err ==> self.fails();
+}
 pub struct Limited<B> { pub inner: B, pub limit: usize }
 impl<B: Body> Limited<B> {
     pub fn new(inner: B, limit: usize) -> (r: Self) ensures r.inner == inner, r.limit == limit { Limited { inner, limit } }
     /// ASSUMED contract of http_body_util::Limited + BodyExt::collect:
-    /// Ok = the whole body, which fits the limit; a LengthLimitError only when the body is larger than the limit.
+    /// Ok = the whole body, which fits the limit; Err = LengthLimitError exactly when a healthy body is larger than the
+    /// limit, otherwise the inner body's own failure.
     #[verifier::external_body]
     pub fn collect(self) -> (r: Result<Collected, BoxError>)
         ensures match r {
-            Ok(c) => collected_view(&c) == self.inner.content() && self.inner.content().len() <= self.limit,
-            Err(e) => is_error_type::<http_body_util::LengthLimitError>(&e) ==> self.inner.content().len() > self.limit,
-        }
+            Ok(c) => collected_view(&c) == self.inner.content() && self.inner.content().len() <= self.limit && !self.inner.fails(),
+            Err(e) => if is_error_type::<http_body_util::LengthLimitError>(&e) { self.inner.content().len() > self.limit }
+                      else { self.inner.fails() },
+        },
+        (!self.inner.fails() && self.inner.content().len() <= self.limit) ==> r is Ok,
     { unimplemented!() }
 }
 /// pavex::request::body::RawIncomingBody (hyper::body::Incoming)
 #[verifier::external_body] pub struct RawIncomingBody { _p: u8 }
 pub uninterp spec fn raw_content(b: &RawIncomingBody) -> Seq<u8>;
-impl Body for RawIncomingBody { open spec fn content(&self) -> Seq<u8> { raw_content(self) } }
+pub uninterp spec fn raw_fails(b: &RawIncomingBody) -> bool;
 #[verifier::external_body] pub struct HyperError { _p: u8 }
-impl HyperError { #[verifier::external_body] pub fn into(self) -> (r: BoxError) { unimplemented!() } }
-impl RawIncomingBody {
-    /// BodyExt::collect without a limit: the whole body or a transport error
+impl Body for RawIncomingBody {
+    type Error = HyperError;
+    open spec fn content(&self) -> Seq<u8> { raw_content(self) }
+    open spec fn fails(&self) -> bool { raw_fails(self) }
     #[verifier::external_body]
-    pub fn collect(self) -> (r: Result<Collected, HyperError>)
-        ensures r matches Ok(c) ==> collected_view(&c) == raw_content(&self)
-    { unimplemented!() }
+    fn collect(self) -> (r: Result<Collected, HyperError>) { unimplemented!() }
 }
+/// conversions into Box<dyn Error + Send + Sync> (std blanket impl `From<E: Error>`), opaque
+pub uninterp spec fn boxed<E>(e: E) -> BoxError;
+impl FromSpecImpl<HyperError> for BoxError { open spec fn obeys_from_spec() -> bool { true } open spec fn from_spec(e: HyperError) -> Self { boxed(e) } }
+impl From<HyperError> for BoxError { #[verifier::external_body] fn from(e: HyperError) -> (r: Self) { unimplemented!() } }
+impl FromSpecImpl<ToStrError> for BoxError { open spec fn obeys_from_spec() -> bool { true } open spec fn from_spec(e: ToStrError) -> Self { boxed(e) } }
+impl From<ToStrError> for BoxError { #[verifier::external_body] fn from(e: ToStrError) -> (r: Self) { unimplemented!() } }
+impl FromSpecImpl<std::num::ParseIntError> for BoxError { open spec fn obeys_from_spec() -> bool { true } open spec fn from_spec(e: std::num::ParseIntError) -> Self { boxed(e) } }
+impl From<std::num::ParseIntError> for BoxError { #[verifier::external_body] fn from(e: std::num::ParseIntError) -> (r: Self) { unimplemented!() } }
 #[verifier::external_type_specification]
 #[verifier::external_body]
 pub struct ExParseIntError(std::num::ParseIntError);
